@@ -680,7 +680,7 @@ class GattClient(GattLayer):
                 if msg.reason == AttErrorCode.ATTR_NOT_FOUND:
                     break
                 else:
-                    error_response_to_exc(msg.reason, msg.request, msg.handle)
+                    raise error_response_to_exc(msg.reason, msg.request, msg.handle)
 
     @proclock
     def discover_secondary_services(self):
@@ -716,7 +716,7 @@ class GattClient(GattLayer):
                 if msg.reason == AttErrorCode.ATTR_NOT_FOUND:
                     break
                 else:
-                    error_response_to_exc(msg.reason, msg.request, msg.handle)
+                    raise error_response_to_exc(msg.reason, msg.request, msg.handle)
 
     @proclock
     def discover_characteristics(self, service: Service, save_values: bool = False, start: Optional[int] = None):
@@ -791,7 +791,7 @@ class GattClient(GattLayer):
                 if msg.reason == AttErrorCode.ATTR_NOT_FOUND:
                     break
                 else:
-                    error_response_to_exc(msg.reason, msg.request, msg.handle)
+                    raise error_response_to_exc(msg.reason, msg.request, msg.handle)
 
     @proclock
     def discover_characteristic_descriptors(self, characteristic):
@@ -822,7 +822,7 @@ class GattClient(GattLayer):
                     if msg.reason == AttErrorCode.ATTR_NOT_FOUND:
                         break
                     else:
-                        error_response_to_exc(msg.reason, msg.request, msg.handle)
+                        raise error_response_to_exc(msg.reason, msg.request, msg.handle)
 
                 handle += 1
     @proclock
@@ -1135,7 +1135,7 @@ class GattClient(GattLayer):
                 if msg.reason == AttErrorCode.ATTR_NOT_FOUND:
                     break
                 else:
-                    error_response_to_exc(msg.reason, msg.request, msg.handle)
+                    raise error_response_to_exc(msg.reason, msg.request, msg.handle)
 
         # Return found characteristic(s)
         return output
